@@ -247,7 +247,7 @@ func (t *Translator) seqWrites(x *ast.CallExpr) types.Object {
 // ---- 3./4. struct-element slices and places ------------------------------------------------------
 
 func lenFn(g gtype) string {
-	if g.elem != nil {
+	if g.elem != nil || g.nest { // [ext:T08] nest: [][]byte
 		return "zlenA"
 	}
 	return "zlen"
